@@ -6,7 +6,7 @@ ID = "C12"
 NEEDS_CLI = True
 NEEDS_SHIM = True
 RULE = ("in-process op mn.random <L> <entropy|fail> (the harness binary defines getentropy, so Mnemonic::random inside the real library reads injected bytes): "
-        "all supported lengths x patterns (all-zero, all-one, walking bit over every bit position, random), injected failure, short reads, every L in 0..40; "
+        "all supported lengths x patterns (all-zero, all-one, walking bit over every bit position, random), injected failure (errno EIO by default; also EPERM, EINTR, EAGAIN, ENOMEM, EFAULT, EINVAL, ENOSYS, 0, EOPNOTSUPP, ETIMEDOUT: once, repeatedly, and once before good bytes), short reads, every L in 0..40; "
         "real binary `new -n L` under an LD_PRELOAD getentropy shim: every L in 0..40, injected entropy, request log (exactly one request of 4L/3 bytes), failure at the "
         "first request and at later requests of a vanity search; successful vanity searches for all five lengths over a known stream (the phrase is the valid sentence of the first matching request); N un-interposed invocations pairwise distinct; every generated phrase parsed back (mn.parse). "
         "non-trivial = distinct (L, entropy); judge = phrase decodes (Spec.Bip39) to exactly the injected bytes")
@@ -47,6 +47,21 @@ def gen(rng, tier):
     for k in range(0, 3):
         stream = ",".join([hx(x) for x in e[:k]] + ["fail"])
         cases.append(Case("cli.new_vanity %s %s - default %s" % (hx("12"), hx("0xfffffff"), stream), tags=("cli", "vanity-fail-at:%d" % k), runner="cli", meta={"threads": 0}))
+    # the source may fail for any reason: every errno a getentropy / getrandom implementation documents (and a few it does
+    # not), failing once, several times in a row, and once before bytes that would have been fine — a request that the source
+    # reported as failed is an error, never a phrase (no silent retry, no fall-through with an untouched buffer)
+    ERRNOS = [1, 4, 5, 11, 12, 14, 22, 38, 0, 95, 110]
+    good = lambda nb: bytes(rng.getrandbits(8) for _ in range(nb)).hex()
+    for en in ERRNOS:
+        for L, nb in SUP.items():
+            cases.append(Case("mn.random %d fail%d" % (L, en), tags=("lib", "fail-errno")))
+            for st in ("fail%d" % en, ",".join(["fail%d" % en] * 3), ",".join(["fail%d" % en] * 8), "fail%d,%s" % (en, good(nb)), "fail%d,fail%d,%s" % (en, en, good(nb))):
+                if L in (12, 24) or rng.random() < 0.4:
+                    cases.append(Case("cli.new %s %s" % (hx(str(L)), st), tags=("cli", "fail-errno", "errno:%d" % en), runner="cli", meta={}))
+        for k in (1, 2):
+            stream = ",".join([hx(x) for x in e[:k]] + ["fail%d" % en] * 4 + [good(16)] * 3)
+            for thr in (0, 2):
+                cases.append(Case("cli.new_vanity %s %s - default %s" % (hx("12"), hx("0xfffffff"), stream), tags=("cli", "vanity-fail-errno", "errno:%d" % en), runner="cli", meta={"threads": thr}))
     # successful vanity searches (single-threaded, known stream): the phrase printed comes from a second or later request
     # for most streams, and must be the valid sentence of exactly that request's bytes (judge: cli.new_vanity)
     for L, nb in SUP.items():
